@@ -1,6 +1,7 @@
 /-
 Helper lemmas for the MJB model (`MjProof/Model/Mjb.lean`): little-endian encoding round trip,
-consumption of a saved image stage by stage, capacities computed by the allocation loop.
+consumption of a saved image stage by stage, capacities computed by the allocation loop,
+round trip / truncation / reference-table soundness / no-over-read at the level of the model functions.
 Core Lean only (no Mathlib needed).
 -/
 import MjProof.Model.Mjb
@@ -21,11 +22,6 @@ theorem leNat_leBytes (n v : Nat) : leNat (leBytes n v) = v % 256 ^ n := by
     have h1 : (UInt8.ofNat (v % 256)).toNat = v % 256 := by
       simp [UInt8.toNat_ofNat']
     rw [h1, Nat.pow_succ, Nat.mul_comm (256 ^ n) 256, Nat.mod_mul, Nat.add_comm]
-
-/-- `v` fits in `n` bytes, two's complement -/
-def InRange (n : Nat) (v : Int) : Prop := -((256 : Int) ^ n) ≤ 2 * v ∧ 2 * v < (256 : Int) ^ n
-
-instance (n : Nat) (v : Int) : Decidable (InRange n v) := by unfold InRange; infer_instance
 
 theorem encInt_length (n : Nat) (v : Int) : (encInt n v).length = n := leBytes_length _ _
 
@@ -213,5 +209,734 @@ theorem allocLoop_caps (L : Layout ns) (sa : Sizes ns) :
       rw [← hr2.1]
       refine ⟨?_, allocLoop_caps L sa ps off' r.1 r.2 (by rw [hr])⟩
       rw [safeAdd_cap hs]; rfl
+
+
+/-! ## consistency of a model value, round trip, size -/
+
+theorem arrsOK_of (intMax : Int) (s sa : Sizes ns) :
+    ∀ (ps : List (Ptr ns)) (cs : List Nat) (as : List Bytes),
+      CapsOK sa ps cs → LensOK s ps as →
+      (∀ p ∈ ps, p.bytes sa = p.bytes s) → (∀ p ∈ ps, p.ncInt s intMax = .ok (p.nc s)) →
+      ArrsOK intMax s ps cs as
+  | [], [], [], _, _, _, _ => trivial
+  | p :: ps, c :: cs, a :: as, hc, hl, hd, hn => by
+    refine ⟨⟨hn p (by simp), hl.1, ?_⟩, arrsOK_of intMax s sa ps cs as hc.2 hl.2
+      (fun q hq => hd q (by simp [hq])) (fun q hq => hn q (by simp [hq]))⟩
+    have h1 := hc.1
+    have h2 := hl.1
+    rw [hd p (by simp)] at h1
+    omega
+  | [], [], _ :: _, _, hl, _, _ => by simp [LensOK] at hl
+  | [], _ :: _, _, hc, _, _, _ => by simp [CapsOK] at hc
+  | _ :: _, [], _, hc, _, _, _ => by simp [CapsOK] at hc
+  | _ :: _, _ :: _, [], _, hl, _, _ => by simp [LensOK] at hl
+
+theorem blobs_flatten_length : ∀ (spec : List (String × Nat)) (blobs : List Bytes),
+    blobs.map List.length = spec.map (·.2) → blobs.flatten.length = (spec.map (·.2)).sum
+  | [], [], _ => rfl
+  | (_, n) :: spec, b :: blobs, h => by
+    simp only [List.map_cons, List.cons.injEq] at h
+    simp [List.flatten_cons, h.1, blobs_flatten_length spec blobs h.2]
+  | [], _ :: _, h => by simp at h
+  | _ :: _, [], h => by simp at h
+
+theorem loadSizes_image (L : Layout ns) (hwf : L.WF) (s : Sizes ns)
+    (hs : ∀ v ∈ s.toList, InRange L.sizeSz v) (tail : Bytes) :
+    loadSizes L (L.header.flatMap (encInt L.intSz) ++ s.toList.flatMap (encInt L.sizeSz) ++ tail) = .ok (s, tail) := by
+  have hH : (L.header.flatMap (encInt L.intSz)).length = L.header.length * L.intSz := by
+    rw [flatMap_enc_length, Nat.mul_comm]
+  have hS : (s.toList.flatMap (encInt L.sizeSz)).length = L.sizeSz * ns := by
+    rw [flatMap_enc_length]; simp
+  unfold loadSizes
+  simp only [List.append_assoc, List.length_append, hH, hS]
+  rw [if_neg (by omega), rdN_append' _ _ hH]
+  simp only
+  have hdec : decN L.intSz L.header.length (L.header.flatMap (encInt L.intSz)) = L.header := by
+    have := decN_flatMap L.header [] hwf.hdrRange
+    simpa using this
+  rw [hdec, checkHeader_self]
+  simp only [Res.ok_bind, List.length_append, hS]
+  rw [if_neg (by omega), rdN_append' _ _ hS]
+  simp only
+  have hdec2 : decN L.sizeSz ns (s.toList.flatMap (encInt L.sizeSz)) = s.toList := by
+    have := decN_flatMap s.toList [] hs
+    simpa using this
+  congr 2
+  unfold decodeSizes
+  exact vec_eq_of_toList (decN_length _ _ _) hdec2
+
+
+theorem save_length (L : Layout ns) (m : Model ns) :
+    (save L m).length = headerBytes L + m.blobs.flatten.length + m.arrays.flatten.length := by
+  unfold save headerBytes
+  simp only [List.length_append, flatMap_enc_length, Vector.length_toList]
+
+theorem loadBody_consistent (L : Layout ns) (sp : Model ns → Res Unit) (m : Model ns)
+    (hc : Consistent L sp m) (len : Nat) (hlen : len = (save L m).length) :
+    loadBody L sp len m.sizes (m.blobs.flatten ++ m.arrays.flatten) = .ok m := by
+  obtain ⟨al, hmk, hnb⟩ := hc.make
+  have hsl := save_length L m
+  have hbl := blobs_flatten_length L.blobs m.blobs hc.blobsLen
+  have hsmall := hc.small
+  -- capacities computed by the allocation loop
+  have hcaps : CapsOK (allocSizes L m.sizes) L.ptrs al.caps := by
+    unfold makeModel at hmk
+    obtain ⟨_, _, hmk⟩ := Res.bind_eq_ok hmk
+    split at hmk
+    · cases hmk
+    · split at hmk
+      · cases hmk
+      · obtain ⟨r, hr, hr2⟩ := Res.bind_eq_ok hmk
+        simp only [Res.ok.injEq] at hr2
+        rw [← hr2]
+        exact allocLoop_caps L _ L.ptrs 0 r.1 r.2 (by rw [hr])
+  have harrs := arrsOK_of L.intMax m.sizes (allocSizes L m.sizes) L.ptrs al.caps m.arrays hcaps hc.arraysLen
+    hc.dimsAgree hc.ncFits
+  unfold loadBody
+  simp only [hmk, List.length_append]
+  rw [if_neg (by simp [hnb]), if_neg (by unfold blobTotal; omega)]
+  rw [readBlobs_flatten L.blobs m.blobs _ hc.blobsLen]
+  simp only [Res.ok_bind]
+  have := readArrays_flatten L.intMax len m.sizes (by omega) L.ptrs al.caps m.arrays [] harrs (by rw [List.append_nil]; omega)
+  simp only [List.append_nil] at this
+  rw [this]
+  simp only [Res.ok_bind, List.length_nil, ne_eq, not_true_eq_false, if_false]
+  show (validate L sp m).bind (fun _ => Res.ok m) = .ok m
+  rw [hc.valid]; rfl
+
+theorem load_save_id' (L : Layout ns) (hwf : L.WF) (sp : Model ns → Res Unit) (m : Model ns)
+    (hc : Consistent L sp m) : load L sp (save L m) = .ok m := by
+  unfold load
+  have himg : save L m = L.header.flatMap (encInt L.intSz) ++ m.sizes.toList.flatMap (encInt L.sizeSz)
+      ++ (m.blobs.flatten ++ m.arrays.flatten) := by
+    unfold save; simp [List.append_assoc]
+  rw [himg, loadSizes_image L hwf m.sizes hc.sizesRange]
+  simp only [Res.ok_bind]
+  rw [← himg]
+  exact loadBody_consistent L sp m hc _ rfl
+
+
+theorem arrays_flatten_length (s : Sizes ns) : ∀ (ps : List (Ptr ns)) (as : List Bytes),
+    LensOK s ps as → ((as.flatten.length : Nat) : Int) = (ps.map (fun p => p.bytes s)).sum
+  | [], [], _ => rfl
+  | p :: ps, a :: as, h => by
+    have ih := arrays_flatten_length s ps as h.2
+    simp only [List.flatten_cons, List.length_append, List.map_cons, List.sum_cons, Int.natCast_add, ih, h.1]
+  | [], _ :: _, h => by simp [LensOK] at h
+  | _ :: _, [], h => by simp [LensOK] at h
+
+theorem size_eq_save_length' (L : Layout ns) (sp : Model ns → Res Unit) (m : Model ns) (hc : Consistent L sp m) :
+    sizeModel L m = ((save L m).length : Int) := by
+  rw [save_length, blobs_flatten_length L.blobs m.blobs hc.blobsLen]
+  unfold sizeModel blobTotal
+  rw [← arrays_flatten_length m.sizes L.ptrs m.arrays hc.arraysLen]
+  simp only [Int.natCast_add]
+
+
+/-! ## truncation -/
+
+theorem readStep_short (intMax : Int) (len : Nat) (s : Sizes ns)
+    (p : Ptr ns) (c : Nat) (a rest : Bytes) (h : ArrOK intMax s p c a)
+    (hshort : rest.length < a.length) (hl : rest.length ≤ len) (hlen : len + a.length < two64) :
+    ∃ w, readStep intMax len s p c rest = .reject w := by
+  obtain ⟨hnc, hb, hcap⟩ := h
+  have hbytes : (p.esz : Int) * s[p.nr] * p.nc s = (a.length : Int) := by
+    rw [hb]; rfl
+  have h64 : ((a.length : Int) % (two64 : Int)).toNat = a.length := by
+    have : (a.length : Int) % (two64 : Int) = a.length :=
+      Int.emod_eq_of_lt (by omega) (by omega)
+    rw [this]; simp
+  simp only [readStep, hnc, Res.ok_bind, hbytes, h64]
+  have hmod : (len - rest.length + a.length) % two64 = len - rest.length + a.length :=
+    Nat.mod_eq_of_lt (by omega)
+  rw [hmod, if_pos (by omega)]
+  exact ⟨_, rfl⟩
+
+theorem readArrays_prefix_reject (intMax : Int) (len : Nat) (s : Sizes ns) (hlen : len ≤ 2147483647) :
+    ∀ (ps : List (Ptr ns)) (cs : List Nat) (as : List Bytes) (j : Nat),
+      ArrsOK intMax s ps cs as → j < as.flatten.length → j ≤ len → as.flatten.length ≤ 2147483647 →
+      ∃ w, readArrays intMax len s ps cs (as.flatten.take j) = .reject w
+  | [], [], [], j, _, hj, _, _ => by simp at hj
+  | p :: ps, c :: cs, a :: as, j, h, hj, hjl, hsm => by
+    obtain ⟨h1, hrest⟩ := h
+    simp only [List.flatten_cons, List.length_append] at hj hsm
+    by_cases hja : a.length ≤ j
+    · have htake : (a ++ as.flatten).take j = a ++ as.flatten.take (j - a.length) := by
+        rw [List.take_append, List.take_of_length_le hja]
+      obtain ⟨w, hw⟩ := readArrays_prefix_reject intMax len s hlen ps cs as (j - a.length) hrest
+        (by omega) (by omega) (by omega)
+      refine ⟨w, ?_⟩
+      simp only [readArrays, List.flatten_cons, htake]
+      rw [readStep_ok intMax len s hlen p c a _ h1 (by simp [List.length_take]; omega)]
+      simp only [Res.ok_bind, hw, Res.reject_bind]
+    · have htake : (a ++ as.flatten).take j = a.take j := List.take_append_of_le_length (by omega)
+      obtain ⟨w, hw⟩ := readStep_short intMax len s p c a (a.take j) h1
+        (by simp [List.length_take]; omega) (by simp [List.length_take]; omega) (by unfold two64; omega)
+      refine ⟨w, ?_⟩
+      simp only [readArrays, List.flatten_cons, htake, hw, Res.reject_bind]
+  | [], [], _ :: _, _, h, _, _, _ => by simp [ArrsOK] at h
+  | [], _ :: _, _, _, h, _, _, _ => by simp [ArrsOK] at h
+  | _ :: _, [], _, _, h, _, _, _ => by simp [ArrsOK] at h
+  | _ :: _, _ :: _, [], _, h, _, _, _ => by simp [ArrsOK] at h
+
+
+theorem caps_of_consistent (L : Layout ns) (sp : Model ns → Res Unit) (m : Model ns) (hc : Consistent L sp m)
+    {al : Alloc} (hmk : makeModel L m.sizes = .ok al) :
+    ArrsOK L.intMax m.sizes L.ptrs al.caps m.arrays := by
+  have hcaps : CapsOK (allocSizes L m.sizes) L.ptrs al.caps := by
+    unfold makeModel at hmk
+    obtain ⟨_, _, hmk⟩ := Res.bind_eq_ok hmk
+    split at hmk
+    · cases hmk
+    · split at hmk
+      · cases hmk
+      · obtain ⟨r, hr, hr2⟩ := Res.bind_eq_ok hmk
+        simp only [Res.ok.injEq] at hr2
+        rw [← hr2]
+        exact allocLoop_caps L _ L.ptrs 0 r.1 r.2 (by rw [hr])
+  exact arrsOK_of L.intMax m.sizes (allocSizes L m.sizes) L.ptrs al.caps m.arrays hcaps hc.arraysLen
+    hc.dimsAgree hc.ncFits
+
+theorem loadBody_truncated (L : Layout ns) (sp : Model ns → Res Unit) (m : Model ns)
+    (hc : Consistent L sp m) (k' : Nat) (hk : k' < (m.blobs.flatten ++ m.arrays.flatten).length) :
+    ∃ w, loadBody L sp (headerBytes L + k') m.sizes ((m.blobs.flatten ++ m.arrays.flatten).take k') = .reject w := by
+  obtain ⟨al, hmk, hnb⟩ := hc.make
+  have hsl := save_length L m
+  have hbl := blobs_flatten_length L.blobs m.blobs hc.blobsLen
+  have hsmall := hc.small
+  have harrs := caps_of_consistent L sp m hc hmk
+  simp only [List.length_append] at hk
+  unfold loadBody
+  simp only [hmk]
+  rw [if_neg (by simp [hnb])]
+  have hlt : ((m.blobs.flatten ++ m.arrays.flatten).take k').length = k' := by
+    simp only [List.length_take, List.length_append]; omega
+  rw [hlt]
+  by_cases hkb : k' < m.blobs.flatten.length
+  · rw [if_pos (by unfold blobTotal; omega)]
+    exact ⟨_, rfl⟩
+  · rw [if_neg (by unfold blobTotal; omega)]
+    have htake : (m.blobs.flatten ++ m.arrays.flatten).take k'
+        = m.blobs.flatten ++ m.arrays.flatten.take (k' - m.blobs.flatten.length) := by
+      rw [List.take_append, List.take_of_length_le (by omega)]
+    rw [htake, readBlobs_flatten L.blobs m.blobs _ hc.blobsLen]
+    simp only [Res.ok_bind]
+    obtain ⟨w, hw⟩ := readArrays_prefix_reject L.intMax (headerBytes L + k') m.sizes (by omega) L.ptrs al.caps m.arrays
+      (k' - m.blobs.flatten.length) harrs (by omega) (by omega) (by omega)
+    exact ⟨w, by rw [hw]; rfl⟩
+
+theorem truncation_rejected' (L : Layout ns) (hwf : L.WF) (sp : Model ns → Res Unit) (m : Model ns)
+    (hc : Consistent L sp m) (k : Nat) (hk : k < (save L m).length) :
+    ∃ w, load L sp ((save L m).take k) = .reject w := by
+  have hH : (L.header.flatMap (encInt L.intSz)).length = L.header.length * L.intSz := by
+    rw [flatMap_enc_length, Nat.mul_comm]
+  have hS : (m.sizes.toList.flatMap (encInt L.sizeSz)).length = L.sizeSz * ns := by
+    rw [flatMap_enc_length]; simp
+  have himg : save L m = L.header.flatMap (encInt L.intSz) ++ (m.sizes.toList.flatMap (encInt L.sizeSz)
+      ++ (m.blobs.flatten ++ m.arrays.flatten)) := by
+    unfold save; simp [List.append_assoc]
+  have hsl := save_length L m
+  have hhb : headerBytes L = L.header.length * L.intSz + L.sizeSz * ns := by
+    unfold headerBytes; rw [Nat.mul_comm]
+  by_cases h1 : k < L.header.length * L.intSz
+  · -- cut inside the header
+    unfold load loadSizes
+    simp only [List.length_take, Nat.min_eq_left (Nat.le_of_lt hk)]
+    rw [if_pos h1]; exact ⟨_, rfl⟩
+  · by_cases h2 : k < headerBytes L
+    · -- cut inside the sizes
+      have htake : (save L m).take k = L.header.flatMap (encInt L.intSz)
+          ++ (m.sizes.toList.flatMap (encInt L.sizeSz) ++ (m.blobs.flatten ++ m.arrays.flatten)).take (k - L.header.length * L.intSz) := by
+        rw [himg, List.take_append, List.take_of_length_le (by omega), hH]
+      unfold load loadSizes
+      rw [htake]
+      simp only [List.length_append, hH, List.length_take, hS]
+      rw [if_neg (by omega), rdN_append' _ _ hH]
+      simp only
+      have hdec : decN L.intSz L.header.length (L.header.flatMap (encInt L.intSz)) = L.header := by
+        have := decN_flatMap L.header [] hwf.hdrRange
+        simpa using this
+      rw [hdec, checkHeader_self]
+      simp only [Res.ok_bind, List.length_take, List.length_append, hS]
+      rw [if_pos (by omega)]; exact ⟨_, rfl⟩
+    · -- header and sizes complete
+      have htake : (save L m).take k = L.header.flatMap (encInt L.intSz) ++ m.sizes.toList.flatMap (encInt L.sizeSz)
+          ++ (m.blobs.flatten ++ m.arrays.flatten).take (k - headerBytes L) := by
+        rw [himg, List.take_append, List.take_of_length_le (by omega), hH, List.take_append,
+          List.take_of_length_le (by omega), hS, List.append_assoc]
+        congr 3
+        omega
+      unfold load
+      rw [htake, loadSizes_image L hwf m.sizes hc.sizesRange]
+      simp only [Res.ok_bind, List.length_append, hH, hS, List.length_take]
+      have hk' : k - headerBytes L < (m.blobs.flatten ++ m.arrays.flatten).length := by
+        simp only [List.length_append]; omega
+      obtain ⟨w, hw⟩ := loadBody_truncated L sp m hc (k - headerBytes L) hk'
+      refine ⟨w, ?_⟩
+      have hlen : L.header.length * L.intSz + L.sizeSz * ns
+          + min (k - headerBytes L) (m.blobs.flatten.length + m.arrays.flatten.length) = headerBytes L + (k - headerBytes L) := by
+        simp only [List.length_append] at hk'
+        omega
+      rw [hlen]
+      exact hw
+
+
+/-! ## reference table -/
+
+theorem refLoop_ok (L : Layout ns) (r : Ref ns) (target : Int) (adrs : List Int) (nums : Option (List Int)) :
+    ∀ (todo i : Nat), refLoop L r target adrs nums i todo = .ok () →
+      ∀ k, k < todo → refStep L r target adrs nums (i + k) = .ok ()
+  | 0, _, _, k, hk => by omega
+  | todo + 1, i, h, k, hk => by
+    simp only [refLoop] at h
+    obtain ⟨u, hu, hrest⟩ := Res.bind_eq_ok h
+    cases k with
+    | zero => simpa using hu
+    | succ k =>
+      have := refLoop_ok L r target adrs nums todo (i + 1) hrest k (by omega)
+      have e : i + (k + 1) = i + 1 + k := by omega
+      rw [e]; exact this
+
+theorem refStep_ok (L : Layout ns) (r : Ref ns) (target : Int) (adrs : List Int) (nums : Option (List Int)) (i : Nat)
+    (h : refStep L r target adrs nums i = .ok ()) :
+    ∃ adr num, adrs[i]? = some adr ∧ (match nums with | none => some (1 : Int) | some l => l[i]?) = some num ∧
+      0 ≤ num ∧ -1 ≤ adr ∧ adr + num ≤ target := by
+  unfold refStep at h
+  split at h
+  · cases h
+  · rename_i adr hadr
+    split at h
+    · cases h
+    · rename_i num hnum
+      split at h
+      · cases h
+      · split at h
+        · cases h
+        · split at h
+          · cases h
+          · split at h
+            · cases h
+            · exact ⟨adr, num, hadr, hnum, by omega, by omega, by omega⟩
+
+/-- entry `i` of reference row `r` is within bounds: the address array has an entry `adr`, the
+    count is `num` (1 when the row has no count array), `-1 ≤ adr`, `0 ≤ num` and
+    `adr + num ≤ sizes[target]` (exact integers: no wrap-around) -/
+def RefEntryOK (m : Model ns) (r : Ref ns) (i : Nat) : Prop :=
+  ∃ a adr num, m.arrays[r.arr]? = some a ∧ (decInts 4 a)[i]? = some adr ∧
+    (match r.num with
+      | none => num = 1
+      | some k => ∃ b, m.arrays[k]? = some b ∧ (decInts 4 b)[i]? = some num) ∧
+    0 ≤ num ∧ -1 ≤ adr ∧ adr + num ≤ m.sizes[r.target]
+
+theorem validateRef_ok (L : Layout ns) (m : Model ns) (r : Ref ns) (h : validateRef L m r = .ok ()) :
+    ∀ i : Nat, (i : Int) < m.sizes[r.nadrS] * r.nadrK → RefEntryOK m r i := by
+  intro i hi
+  unfold validateRef at h
+  split at h
+  · cases h
+  · rename_i a ha
+    obtain ⟨nums, hnums, hloop⟩ := Res.bind_eq_ok h
+    have hlt : i < (m.sizes[r.nadrS] * (r.nadrK : Int)).toNat := by omega
+    have hstep := refLoop_ok L r _ _ nums _ 0 hloop i hlt
+    rw [Nat.zero_add] at hstep
+    obtain ⟨adr, num, hadr, hnum, h0, h1, h2⟩ := refStep_ok L r _ _ nums i hstep
+    refine ⟨a, adr, num, ha, hadr, ?_, h0, h1, h2⟩
+    cases hr : r.num with
+    | none =>
+      simp only [hr, Res.ok.injEq] at hnums
+      subst hnums
+      simpa using hnum.symm
+    | some k =>
+      simp only [hr] at hnums
+      split at hnums
+      · cases hnums
+      · rename_i b hb
+        simp only [Res.ok.injEq] at hnums
+        subst hnums
+        exact ⟨b, hb, hnum⟩
+
+theorem validateTable_ok (L : Layout ns) (m : Model ns) : ∀ (rs : List (Ref ns)),
+    validateTable L m rs = .ok () → ∀ r ∈ rs, validateRef L m r = .ok ()
+  | [], _, r, hr => by simp at hr
+  | r0 :: rs, h, r, hr => by
+    simp only [validateTable] at h
+    obtain ⟨u, hu, hrest⟩ := Res.bind_eq_ok h
+    rcases List.mem_cons.mp hr with rfl | hr'
+    · exact hu
+    · exact validateTable_ok L m rs hrest r hr'
+
+theorem validate_sound' (L : Layout ns) (sp : Model ns → Res Unit) (m : Model ns) (h : validate L sp m = .ok ()) :
+    ∀ r ∈ L.refs, ∀ i : Nat, (i : Int) < m.sizes[r.nadrS] * r.nadrK → RefEntryOK m r i := by
+  intro r hr
+  unfold validate at h
+  obtain ⟨u, hu, _⟩ := Res.bind_eq_ok h
+  exact validateRef_ok L m r (validateTable_ok L m L.refs hu r hr)
+
+
+/-! ## hazards -/
+
+theorem checkArgs_not_hazard (L : Layout ns) (s : Sizes ns) : ∀ (names : List String) (i : Nat) (u : Hazard),
+    checkArgs L s i names ≠ .hazard u
+  | [], i, u => by simp only [checkArgs]; intro h; cases h
+  | nm :: rest, i, u => by
+    simp only [checkArgs]
+    split
+    · intro h; cases h
+    · split
+      · intro h; cases h
+      · exact checkArgs_not_hazard L s rest (i + 1) u
+
+theorem allocLoop_not_hazard (L : Layout ns) (sa : Sizes ns) : ∀ (ps : List (Ptr ns)) (off : Nat) (u : Hazard),
+    allocLoop L sa ps off ≠ .hazard u
+  | [], off, u => by simp only [allocLoop]; intro h; cases h
+  | p :: ps, off, u => by
+    simp only [allocLoop]
+    split
+    · intro h; cases h
+    · rename_i cap off' _
+      have ih := allocLoop_not_hazard L sa ps off'
+      cases hr : allocLoop L sa ps off' with
+      | reject w => simp only [Res.reject_bind]; intro h; cases h
+      | fatal w => simp only [Res.fatal_bind]; intro h; cases h
+      | hazard v => exact absurd hr (ih v)
+      | ok r => simp only [Res.ok_bind]; intro h; cases h
+
+theorem makeModel_not_hazard (L : Layout ns) (s : Sizes ns) (u : Hazard) : makeModel L s ≠ .hazard u := by
+  unfold makeModel
+  cases hc : checkArgs L s 0 L.sizeNames with
+  | reject w => intro h; cases h
+  | fatal w => intro h; cases h
+  | hazard v => exact absurd hc (checkArgs_not_hazard L s _ _ v)
+  | ok x =>
+    show (if s[L.nbody] = 0 then _ else _) ≠ _
+    split
+    · intro h; cases h
+    · split
+      · intro h; cases h
+      · cases hr : allocLoop L (allocSizes L s) L.ptrs 0 with
+        | reject w => simp only [Res.reject_bind]; intro h; cases h
+        | fatal w => simp only [Res.fatal_bind]; intro h; cases h
+        | hazard v => exact absurd hr (allocLoop_not_hazard L _ _ _ v)
+        | ok r => simp only [Res.ok_bind]; intro h; cases h
+
+theorem refStep_not_overread (L : Layout ns) (r : Ref ns) (target : Int) (adrs : List Int) (nums : Option (List Int)) (i : Nat) :
+    refStep L r target adrs nums i ≠ .hazard .inputOverread := by
+  unfold refStep
+  split
+  · intro h; cases h
+  · split
+    · intro h; cases h
+    · split
+      · intro h; cases h
+      · split
+        · intro h; cases h
+        · split
+          · intro h; cases h
+          · split
+            · intro h; cases h
+            · intro h; cases h
+
+theorem refLoop_not_overread (L : Layout ns) (r : Ref ns) (target : Int) (adrs : List Int) (nums : Option (List Int)) :
+    ∀ (todo i : Nat), refLoop L r target adrs nums i todo ≠ .hazard .inputOverread
+  | 0, i => by simp only [refLoop]; intro h; cases h
+  | todo + 1, i => by
+    simp only [refLoop]
+    cases hs : refStep L r target adrs nums i with
+    | reject w => simp only [Res.reject_bind]; intro h; cases h
+    | fatal w => simp only [Res.fatal_bind]; intro h; cases h
+    | hazard v =>
+      simp only [Res.hazard_bind]
+      intro h
+      have : v = .inputOverread := by simpa using h
+      rw [this] at hs
+      exact refStep_not_overread L r target adrs nums i hs
+    | ok x => simp only [Res.ok_bind]; exact refLoop_not_overread L r target adrs nums todo (i + 1)
+
+theorem validateRef_not_overread (L : Layout ns) (m : Model ns) (r : Ref ns) :
+    validateRef L m r ≠ .hazard .inputOverread := by
+  unfold validateRef
+  split
+  · intro h; cases h
+  · cases hr : r.num with
+    | none => simp only [Res.ok_bind]; exact refLoop_not_overread L r _ _ _ _ _
+    | some k =>
+      simp only
+      split
+      · simp only [Res.hazard_bind]; intro h; cases h
+      · simp only [Res.ok_bind]; exact refLoop_not_overread L r _ _ _ _ _
+
+theorem validateTable_not_overread (L : Layout ns) (m : Model ns) : ∀ (rs : List (Ref ns)),
+    validateTable L m rs ≠ .hazard .inputOverread
+  | [] => by simp only [validateTable]; intro h; cases h
+  | r :: rs => by
+    simp only [validateTable]
+    cases hs : validateRef L m r with
+    | reject w => simp only [Res.reject_bind]; intro h; cases h
+    | fatal w => simp only [Res.fatal_bind]; intro h; cases h
+    | hazard v =>
+      simp only [Res.hazard_bind]
+      intro h
+      have : v = .inputOverread := by simpa using h
+      rw [this] at hs
+      exact validateRef_not_overread L m r hs
+    | ok x => simp only [Res.ok_bind]; exact validateTable_not_overread L m rs
+
+def DimOK (intMax : Int) (s : Sizes ns) (p : Ptr ns) : Prop :=
+  ∀ ncv, p.ncInt s intMax = .ok ncv → 0 ≤ (p.esz : Int) * s[p.nr] * ncv ∧ (p.esz : Int) * s[p.nr] * ncv < two63
+
+theorem ncInt_hazard (intMax : Int) (s : Sizes ns) (p : Ptr ns) (u : Hazard) (h : p.ncInt s intMax = .hazard u) :
+    u ≠ .inputOverread := by
+  unfold Ptr.ncInt at h
+  split at h
+  · cases h
+  · simp only at h
+    split at h
+    · simp only [Res.hazard.injEq] at h; subst h; intro h; cases h
+    · cases h
+
+theorem readStep_no_overread (intMax : Int) (len : Nat) (s : Sizes ns) (hlen : len ≤ 2147483647)
+    (p : Ptr ns) (c : Nat) (rest : Bytes) (hd : DimOK intMax s p) (hrest : rest.length ≤ len) :
+    readStep intMax len s p c rest ≠ .hazard .inputOverread ∧
+    ∀ a rest', readStep intMax len s p c rest = .ok (a, rest') → rest'.length ≤ len := by
+  cases hnc : p.ncInt s intMax with
+  | reject w =>
+    simp only [readStep, hnc, Res.reject_bind]
+    exact ⟨(by intro h; cases h), (by intro a r h; cases h)⟩
+  | fatal w =>
+    simp only [readStep, hnc, Res.fatal_bind]
+    exact ⟨(by intro h; cases h), (by intro a r h; cases h)⟩
+  | hazard u =>
+    simp only [readStep, hnc, Res.hazard_bind]
+    refine ⟨?_, (by intro a r h; cases h)⟩
+    intro h
+    simp only [Res.hazard.injEq] at h
+    exact ncInt_hazard intMax s p u hnc h
+  | ok ncv =>
+    obtain ⟨h0, h63⟩ := hd ncv hnc
+    obtain ⟨B, hB⟩ : ∃ B : Int, (p.esz : Int) * s[p.nr] * ncv = B := ⟨_, rfl⟩
+    simp only [hB] at h0 h63
+    simp only [readStep, hnc, Res.ok_bind, hB]
+    have hBn : (B % (two64 : Int)).toNat = B.toNat := by
+      rw [Int.emod_eq_of_lt h0 (by unfold two63 at h63; unfold two64; omega)]
+    rw [hBn]
+    have hmod : (len - rest.length + B.toNat) % two64 = len - rest.length + B.toNat :=
+      Nat.mod_eq_of_lt (by unfold two63 at h63; unfold two64; omega)
+    rw [hmod]
+    split
+    · exact ⟨(by intro h; cases h), (by intro a r h; cases h)⟩
+    · rename_i hfit
+      have hBsmall : B.toNat ≤ 2147483647 := by omega
+      rw [toI32_small hBsmall]
+      rw [if_neg (by omega), if_neg (by omega)]
+      simp only [Int.toNat_natCast]
+      have hrd : rdN rest B.toNat = some (rest.take B.toNat, rest.drop B.toNat) := by
+        unfold rdN; rw [if_pos (by omega)]
+      rw [hrd]
+      simp only
+      split
+      · exact ⟨(by intro h; cases h), (by intro a r h; cases h)⟩
+      · refine ⟨(by intro h; cases h), ?_⟩
+        intro a rest' h
+        simp only [Res.ok.injEq, Prod.mk.injEq] at h
+        rw [← h.2, List.length_drop]; omega
+
+theorem readArrays_no_overread (intMax : Int) (len : Nat) (s : Sizes ns) (hlen : len ≤ 2147483647) :
+    ∀ (ps : List (Ptr ns)) (cs : List Nat) (rest : Bytes),
+      (∀ p ∈ ps, DimOK intMax s p) → rest.length ≤ len →
+      readArrays intMax len s ps cs rest ≠ .hazard .inputOverread
+  | [], _, _, _, _ => by simp only [readArrays]; intro h; cases h
+  | _ :: _, [], _, _, _ => by simp only [readArrays]; intro h; cases h
+  | p :: ps, c :: cs, rest, hd, hrest => by
+    obtain ⟨h1, h2⟩ := readStep_no_overread intMax len s hlen p c rest (hd p (by simp)) hrest
+    simp only [readArrays]
+    cases hs : readStep intMax len s p c rest with
+    | reject w => simp only [Res.reject_bind]; intro h; cases h
+    | fatal w => simp only [Res.fatal_bind]; intro h; cases h
+    | hazard u =>
+      simp only [Res.hazard_bind, ne_eq, Res.hazard.injEq]
+      intro hu; rw [hs, hu] at h1; exact h1 rfl
+    | ok ar =>
+      simp only [Res.ok_bind]
+      have ih := readArrays_no_overread intMax len s hlen ps cs ar.2 (fun q hq => hd q (by simp [hq]))
+        (h2 ar.1 ar.2 hs)
+      cases hr : readArrays intMax len s ps cs ar.2 with
+      | reject w => simp only [Res.reject_bind]; intro h; cases h
+      | fatal w => simp only [Res.fatal_bind]; intro h; cases h
+      | hazard u =>
+        simp only [Res.hazard_bind, ne_eq, Res.hazard.injEq]
+        intro hu; rw [hr, hu] at ih; exact ih rfl
+      | ok r => simp only [Res.ok_bind]; intro h; cases h
+
+theorem readBlobs_facts : ∀ (spec : List (String × Nat)) (rest : Bytes),
+    readBlobs spec rest ≠ .hazard .inputOverread ∧
+    ∀ bs rest', readBlobs spec rest = .ok (bs, rest') → rest'.length ≤ rest.length
+  | [], rest => by
+    simp only [readBlobs]
+    exact ⟨(by intro h; cases h), (by intro bs r h; simp only [Res.ok.injEq, Prod.mk.injEq] at h; rw [← h.2]; exact Nat.le_refl _)⟩
+  | (nm, n) :: spec, rest => by
+    simp only [readBlobs]
+    cases hrd : rdN rest n with
+    | none => exact ⟨(by intro h; cases h), (by intro bs r h; cases h)⟩
+    | some ar =>
+      obtain ⟨ih1, ih2⟩ := readBlobs_facts spec ar.2
+      have hlen : ar.2.length ≤ rest.length := by
+        unfold rdN at hrd
+        split at hrd
+        · simp only [Option.some.injEq] at hrd
+          rw [← hrd]; simp only [List.length_drop]; omega
+        · cases hrd
+      simp only
+      cases hr : readBlobs spec ar.2 with
+      | reject w => exact ⟨(by intro h; cases h), (by intro bs r h; cases h)⟩
+      | fatal w => exact ⟨(by intro h; cases h), (by intro bs r h; cases h)⟩
+      | hazard u =>
+        refine ⟨?_, (by intro bs r h; cases h)⟩
+        intro h
+        have : u = .inputOverread := by
+          have h' : Res.hazard u = (Res.hazard Hazard.inputOverread : Res (List Bytes × Bytes)) := h
+          simpa using h'
+        rw [hr, this] at ih1; exact ih1 rfl
+      | ok r =>
+        refine ⟨(by intro h; cases h), ?_⟩
+        intro bs r' h
+        have h' : Res.ok (ar.1 :: r.1, r.2) = (Res.ok (bs, r') : Res (List Bytes × Bytes)) := h
+        simp only [Res.ok.injEq, Prod.mk.injEq] at h'
+        have := ih2 r.1 r.2 (by rw [hr])
+        rw [← h'.2]; omega
+
+
+theorem rdN_some_iff {rest : Bytes} {n : Nat} (h : n ≤ rest.length) : rdN rest n = some (rest.take n, rest.drop n) := by
+  unfold rdN; rw [if_pos h]
+
+theorem checkHeader_not_hazard : ∀ (e h : List Int) (msgs : List String) (u : Hazard), checkHeader e h msgs ≠ .hazard u
+  | [], _, _, u => by simp only [checkHeader]; intro h; cases h
+  | _ :: _, [], _, u => by simp only [checkHeader]; intro h; cases h
+  | e :: es, h :: hs, msgs, u => by
+    simp only [checkHeader]
+    split
+    · intro h; cases h
+    · exact checkHeader_not_hazard es hs _ u
+
+theorem loadSizes_facts (L : Layout ns) (buf : Bytes) :
+    (∀ u, loadSizes L buf ≠ .hazard u) ∧
+    ∀ s rest, loadSizes L buf = .ok (s, rest) → rest.length ≤ buf.length := by
+  unfold loadSizes
+  simp only
+  split
+  · exact ⟨(by intro u h; cases h), (by intro s r h; cases h)⟩
+  · rename_i h1
+    rw [rdN_some_iff (by omega)]
+    simp only
+    cases hc : checkHeader L.header (decN L.intSz L.header.length (List.take (L.header.length * L.intSz) buf)) L.headerMsgs with
+    | reject w => exact ⟨(by intro u h; cases h), (by intro s r h; cases h)⟩
+    | fatal w => exact ⟨(by intro u h; cases h), (by intro s r h; cases h)⟩
+    | hazard v => exact absurd hc (checkHeader_not_hazard _ _ _ v)
+    | ok x =>
+      simp only [Res.ok_bind]
+      split
+      · exact ⟨(by intro u h; cases h), (by intro s r h; cases h)⟩
+      · rename_i h2
+        simp only [List.length_drop] at h2 ⊢
+        rw [rdN_some_iff (by simp only [List.length_drop]; omega)]
+        simp only
+        refine ⟨(by intro u h; cases h), ?_⟩
+        intro s r h
+        simp only [Res.ok.injEq, Prod.mk.injEq] at h
+        rw [← h.2]; simp only [List.length_drop]; omega
+
+/-- **No over-read of the input buffer** when the byte counts computed from the file's sizes do not
+    wrap: every `memcpy` out of the caller's buffer stays inside it. -/
+theorem load_no_overread (L : Layout ns) (sp : Model ns → Res Unit) (buf : Bytes)
+    (hlen : buf.length ≤ 2147483647) (hsp : ∀ m, sp m ≠ .hazard .inputOverread)
+    (hdims : ∀ s rest, loadSizes L buf = .ok (s, rest) → ∀ p ∈ L.ptrs, DimOK L.intMax s p) :
+    load L sp buf ≠ .hazard .inputOverread := by
+  obtain ⟨hs1, hs2⟩ := loadSizes_facts L buf
+  unfold load
+  cases hls : loadSizes L buf with
+  | reject w => intro h; cases h
+  | fatal w => intro h; cases h
+  | hazard v => exact absurd hls (hs1 v)
+  | ok sr =>
+    simp only [Res.ok_bind]
+    have hr2 := hs2 sr.1 sr.2 hls
+    have hd := hdims sr.1 sr.2 hls
+    unfold loadBody
+    cases hmk : makeModel L sr.1 with
+    | reject w => intro h; cases h
+    | fatal w => intro h; cases h
+    | hazard v => exact absurd hmk (makeModel_not_hazard L _ v)
+    | ok al =>
+      simp only
+      split
+      · intro h; cases h
+      · split
+        · intro h; cases h
+        · obtain ⟨hb1, hb2⟩ := readBlobs_facts L.blobs sr.2
+          cases hrb : readBlobs L.blobs sr.2 with
+          | reject w => intro h; cases h
+          | fatal w => intro h; cases h
+          | hazard v =>
+            simp only [Res.hazard_bind]
+            intro h
+            have : v = .inputOverread := by simpa using h
+            rw [hrb, this] at hb1; exact hb1 rfl
+          | ok br =>
+            simp only [Res.ok_bind]
+            have hbl := hb2 br.1 br.2 hrb
+            have hra := readArrays_no_overread L.intMax buf.length sr.1 hlen L.ptrs al.caps br.2 hd (by omega)
+            cases hr : readArrays L.intMax buf.length sr.1 L.ptrs al.caps br.2 with
+            | reject w => intro h; cases h
+            | fatal w => intro h; cases h
+            | hazard v =>
+              simp only [Res.hazard_bind]
+              intro h
+              have : v = .inputOverread := by simpa using h
+              rw [hr, this] at hra; exact hra rfl
+            | ok ar =>
+              simp only [Res.ok_bind]
+              split
+              · intro h; cases h
+              · unfold validate
+                cases hvt : validateTable L { sizes := sr.1, blobs := br.1, arrays := ar.1 } L.refs with
+                | reject w => intro h; cases h
+                | fatal w => intro h; cases h
+                | hazard v =>
+                  simp only [Res.hazard_bind]
+                  intro h
+                  have : v = .inputOverread := by simpa using h
+                  rw [this] at hvt; exact validateTable_not_overread L _ _ hvt
+                | ok x =>
+                  simp only [Res.ok_bind]
+                  cases hspm : sp { sizes := sr.1, blobs := br.1, arrays := ar.1 } with
+                  | reject w => intro h; cases h
+                  | fatal w => intro h; cases h
+                  | hazard v =>
+                    simp only [Res.hazard_bind]
+                    intro h
+                    have : v = .inputOverread := by simpa using h
+                    rw [this] at hspm; exact hsp _ hspm
+                  | ok y => intro h; cases h
+
+
+/-! ## the executable consistency check is sound -/
+
+theorem lensOKB_sound (s : Sizes ns) : ∀ (ps : List (Ptr ns)) (as : List Bytes), lensOKB s ps as = true → LensOK s ps as
+  | [], [], _ => trivial
+  | p :: ps, a :: as, h => by
+    simp only [lensOKB, Bool.and_eq_true, decide_eq_true_eq] at h
+    exact ⟨h.1, lensOKB_sound s ps as h.2⟩
+  | [], _ :: _, h => by simp [lensOKB] at h
+  | _ :: _, [], h => by simp [lensOKB] at h
+
+theorem consistentB_sound (L : Layout ns) (sp : Model ns → Res Unit) (m : Model ns)
+    (h : consistentB L sp m = true) : Consistent L sp m := by
+  unfold consistentB at h
+  simp only [Bool.and_eq_true, List.all_eq_true, decide_eq_true_eq] at h
+  obtain ⟨⟨⟨⟨⟨⟨⟨h1, h2⟩, h3⟩, h4⟩, h5⟩, h6⟩, h7⟩, h8⟩ := h
+  refine ⟨h1, ?_, h3, h4, h5, lensOKB_sound _ _ _ h6, h7, h8⟩
+  split at h2
+  · rename_i al hal
+    exact ⟨al, hal, by simpa using h2⟩
+  · cases h2
 
 end MjProof.Mjb
